@@ -1370,6 +1370,9 @@ class AdapterIndex:
                             continue
                         if other_matches == matches and s not in ambiguous:
                             ambiguous[s] = (adapter, other_adapter, k, matches)
+                        elif matches > other_matches:
+                            # A strictly better match resolves an earlier tie
+                            ambiguous.pop(s, None)
                     index[s] = (adapter, errors, matches)
                     lengths.add(len(s))
             else:
@@ -1383,6 +1386,9 @@ class AdapterIndex:
                                 continue
                             if other_matches == matches and s not in ambiguous:
                                 ambiguous[s] = (adapter, other_adapter, k, matches)
+                            elif matches > other_matches:
+                                # A strictly better match resolves an earlier tie
+                                ambiguous.pop(s, None)
                         index[s] = (adapter, errors, matches)
                 lengths.add(n)
 
